@@ -289,9 +289,8 @@ class C13(Spec):
                 u = uni.get(key); s = exp.get((kind, int(w[3])))
                 if u is None or s is None or "ents" not in s:
                     continue
-                if out == "throw":
-                    u["poisoned"] = u.get("poisoned", False) or False
-                    continue      # seed mismatch refusals are covered by C02
+                if out != "ok":
+                    continue      # seed mismatch refusals are covered by C02; bad-op = object missing (shrunk histories)
                 u["inputs"].append(dict(s, ents={k: list(v) for k, v in s["ents"].items()}))
                 continue
             if op == "tureset":
@@ -332,7 +331,7 @@ class C13(Spec):
                 continue
             if op == "tiupd":
                 it = inter.get(key); s = exp.get((kind, int(w[3])))
-                if it is None or s is None or "ents" not in s or out == "throw":
+                if it is None or s is None or "ents" not in s or out != "ok":
                     continue
                 it["inputs"].append(dict(s, ents={k: list(v) for k, v in s["ents"].items()}))
                 continue
@@ -351,7 +350,9 @@ class C13(Spec):
                         bad.append(("intersection-result-before-update", out[:60], i))
                     continue
                 if o is None:
-                    bad.append(("intersection-result-missing", out[:60], i)); continue
+                    if out != "bad-op":
+                        bad.append(("intersection-result-missing", out[:60], i))
+                    continue
                 st = None
                 for s in it["inputs"]:
                     if st is not None and st[1]:
@@ -376,8 +377,7 @@ class C13(Spec):
                 if a["empty"] or (a["ents"] and b["empty"]):
                     e = dict(theta=a["theta"], empty=a["empty"], ents={k: list(v) for k, v in a["ents"].items()})
                 else:
-                    bt = MAXT if b["empty"] else b["theta"]
-                    theta = min(a["theta"], bt)
+                    theta = min(a["theta"], b["theta"])
                     ents = {k: list(v) for k, v in a["ents"].items() if k < theta and k not in b["ents"]}
                     e = dict(theta=theta, empty=(not ents and theta == MAXT), ents=ents)
                 e.update(seedhash=o["seedhash"], ordered=o["ordered"])
